@@ -1499,7 +1499,8 @@ def _describe(ds):
             g['ori_patient'] = rl(item.PlaneOrientationSequence[0].ImageOrientationPatient)
         return g
     cs = get_image_coordinate_system(ds)
-    d = {'coord': None if cs is None else cs.value.lower(), 'multiframe': bool(is_multiframe_image(ds))}
+    d = {'coord': None if cs is None else cs.value.lower(), 'multiframe': bool(is_multiframe_image(ds)),
+         'for_uid': str(ds.FrameOfReferenceUID) if 'FrameOfReferenceUID' in ds else None}
     if 'ImagePositionPatient' in ds:
         d.update(root_pos=rl(ds.ImagePositionPatient), root_ori=rl(ds.ImageOrientationPatient), root_ps=rl(ds.PixelSpacing),
                  root_sbs=R(float(ds.SpacingBetweenSlices)) if 'SpacingBetweenSlices' in ds else None)
@@ -1746,6 +1747,18 @@ def _cross_cases(ctx, reqs, pend):
                     ctx.fail(fcase, {'what': 'for_images differs from the constructor on the attributes of the two sides',
                                      'got': t.affine.tolist(), 'want': want.affine.tolist() if st_w == 'ok' else want}, site='for_images')
             _for_images_compare(reqs, pend, case, ds_f, ds_t, fno_f, fno_t, tot_f, tot_t, tol, descs[a_i], descs[1 - a_i])
+            if trial == 0:
+                # another frame of reference / none at all on one side: refused, in code and model
+                other = copy.deepcopy(ds_t)
+                if r.random() < 0.5:
+                    other.FrameOfReferenceUID = sources._uid()
+                else:
+                    del other.FrameOfReferenceUID
+                for cls2 in (sp.PixelToPixelTransformer, sp.ImageToImageTransformer):
+                    if _call(cls2.for_images, ds_f, other, frame_number_from=fno_f, frame_number_to=fno_t, for_total_pixel_matrix_from=tot_f,
+                             for_total_pixel_matrix_to=tot_t)[0] == 'ok':
+                        ctx.fail(dict(case, cls=cls2.__name__, what='no common frame of reference'), 'accepted', site='for_images')
+                _for_images_compare(reqs, pend, dict(case, what='no common frame of reference'), ds_f, other, fno_f, fno_t, tot_f, tot_t, tol, descs[a_i])
 
 
 # ------------------------------------------------------------------ 5a. TILED_FULL images in general form
